@@ -200,6 +200,11 @@ class Threader:
                 pl = rv["place"]
                 if not pl["p"] and pl["l"] in env and env[pl["l"]][0] == "variant":
                     val = ("int", env[pl["l"]][1])
+                elif pl["p"] == ["*"] and pl["l"] in env and env[pl["l"]][0] == "refto" and env[pl["l"]][1] in env and env[env[pl["l"]][1]][0] == "variant":
+                    # `match &x { .. }`
+                    val = ("int", env[env[pl["l"]][1]][1])
+            elif rv["k"] == "ref" and not rv["place"]["p"]:
+                val = ("refto", rv["place"]["l"])
             elif rv["k"] == "unop" and rv.get("op") == "Not":
                 o = rv["ops"][0]
                 if o.get("place") and not o["place"]["p"] and o["place"]["l"] in env and env[o["place"]["l"]][0] == "bool":
